@@ -497,6 +497,14 @@ func genC04(r *Rng, tier string) *World {
 			if kind == "slice" && N.Elem.IsPrim() && N.Elem.Kind != "time" && r.P(0.5) {
 				inN = Pick(r, []Val{{K: "tl", S: N.Elem.Kind, B: true}, VL()}) // typed nil / empty list: present
 			}
+			if in := N; kind == "struct" || kind == "ptr" {
+				for in.Kind == "ptr" {
+					in = in.Elem
+				}
+				if in.Kind == "struct" && r.P(0.6) {
+					inN = VM() // `{}`: a present record (its members are what is missing)
+				}
+			}
 		default:
 			inN, missing = GenParseInput(r, &GenCfg{MaxElems: 2, PValid: 0.7, MaxDepth: 3, MaxFields: 3}, N)
 		}
@@ -634,7 +642,14 @@ func runC04(x *X) *Violation {
 			return &Violation{Class: "C04/panic mode=" + op.Kind, Detail: "call did not return: " + res.Panic}
 		}
 		m := ModelFor(root, op, res)
-		if len(m.Abstain) > 0 || m.Desync {
+		if m.Desync && len(m.Abstain) == 0 {
+			// the records the execution walked are not the records the schema and this input call for: a present record
+			// was treated as absent (or an absent one as present)
+			return &Violation{Class: "C04/struct-visits-differ-from-the-schema mode=" + op.Kind,
+				Detail: fmt.Sprintf("the execution visited %d struct(s) (%v); the schema and input call for another sequence; issues %v",
+					len(structVisits(res.Visits)), structVisits(res.Visits), res.PCTs())}
+		}
+		if len(m.Abstain) > 0 {
 			x.Probes["model_abstained"]++
 			continue
 		}
